@@ -3278,7 +3278,13 @@ impl PeerConnection {
         channels.push(Arc::downgrade(&dc));
         drop(channels);
 
-        if !dc.negotiated {
+        if dc.negotiated {
+            // Nobody will announce this channel if the association is already up.
+            let transport = self.inner.sctp_transport.lock().clone();
+            if let Some(transport) = transport {
+                transport.open_negotiated_channel(&dc);
+            }
+        } else {
             let transport = self.inner.sctp_transport.lock().clone();
             if let Some(transport) = transport {
                 let dc_clone = dc.clone();
